@@ -126,16 +126,24 @@ def tr_base(f, names, fields, M):
     raise Untranslated('field class %s outside fragment' % t.__name__)
 
 
+# Message.__init__ runs `self.data = ''` AFTER _create_fields: the attribute of a field
+# called "data" holds '' (no bytes) after construction, whatever its create() returned.
+CLOBBERED = {'data': '(VBytes [])'}
+
+
 def tr_field(f, names, fields, M):
     if type(f) is M.Optional:
         b, _, bn = tr_base(f._field, names, fields, M)
-        return 'mkFld %s KOpt (%s) VNone [%s]' % (q(f._field.name), b, '; '.join(map(q, bn)))
+        d = CLOBBERED.get(f._field.name, 'VNone')
+        return 'mkFld %s KOpt (%s) %s [%s]' % (q(f._field.name), b, d, '; '.join(map(q, bn)))
     if type(f) is M.Conditional:
         arg, expr = fn_return_expr(f._condition_fn)
         c = tr_cond(expr, arg, names, fields, M)
         b, d, bn = tr_base(f._field, names, fields, M)
+        d = CLOBBERED.get(f._field.name, d)
         return 'mkFld %s (KCond %s) (%s) %s [%s]' % (q(f._field.name), c, b, d, '; '.join(map(q, bn)))
     b, d, bn = tr_base(f, names, fields, M)
+    d = CLOBBERED.get(f.name, d)
     return 'mkFld %s KPlain (%s) %s [%s]' % (q(f.name), b, d, '; '.join(map(q, bn)))
 
 
